@@ -39,6 +39,8 @@ def run_fault(case, chooser):
     script = SCRIPTS[case["script"]]
     second = case.get("second", False)
     spy = backends.SpyControl()
+    if case.get("close_value") is not None:
+        spy.close_value = case["close_value"]          # a backend whose close() returns something truthy
     rig = Rig(chooser=chooser, n_sessions=2 if second else 1, tree=corpus.TREE, spy=spy, window=case.get("window", 65536),
               server_kwargs=dict(corpus.SERVER_KW), backend=case["backend"])
     problems = []
@@ -251,6 +253,11 @@ def build_items(tier):
                         continue
                     case = {"script": script, "backend": backend, "mode": "single", "k": k, "second": second,
                             "solo": solos[backend]}
+                    items.append((case, bound, kinds))
+                # a backend whose close() returns a value (the API leaves that open)
+                if backend == "memory" and script in corpus.TRANSFER_SCRIPTS + ["stor-over", "appe-new", "abor-mid-stor"]:
+                    case = {"script": script, "backend": backend, "mode": "single", "k": k, "second": False,
+                            "close_value": True}
                     items.append((case, bound, kinds))
                 # a backend may fail with any kind of exception (time-outs, value errors, ...)
                 for exc in ("TimeoutError", "ValueError", "KeyError", "RuntimeError", "PathIOError", "ConnectionError"):
